@@ -55,6 +55,8 @@ MISC = ["NgramCase", "SkipgramCase", "LZCase", "BPECase", "HistogramCase", "KDEC
 PLANS["C13"] = {
     "quick": [
         {"name": "H-interp-all", "layer": "H", "mode": "interp", "runs": 9000, "workers": 5, "budget_s": 170},
+        {"name": "H-interp-hashseed", "layer": "H", "mode": "interp", "variant": "hs", "runs": 1600, "workers": 1, "budget_s": 170,
+         "pair_hashseed": "4242", "params": {"no_faults": True}},
         {"name": "H-interp-cancel", "layer": "H", "mode": "interp", "variant": "cancel", "runs": 5000, "workers": 3, "budget_s": 170,
          "params": {"cancel": True}},
         {"name": "H-interp-ot", "layer": "H", "mode": "interp", "variant": "ot", "runs": 4000, "workers": 3, "budget_s": 170,
@@ -72,6 +74,8 @@ PLANS["C13"] = {
         {"name": "H-interp-all", "layer": "H", "mode": "interp", "runs": 200000, "workers": 5, "budget_s": 2600, "params": {"cancel": True}},
         {"name": "H-interp-nocancel", "layer": "H", "mode": "interp", "variant": "nocancel", "runs": 100000, "workers": 3, "budget_s": 2600,
          "params": {"cancel": False}},
+        {"name": "H-interp-hashseed", "layer": "H", "mode": "interp", "variant": "hs", "runs": 30000, "workers": 1, "budget_s": 2600,
+         "pair_hashseed": "4242", "params": {"no_faults": True}},
         {"name": "H-interp-ot", "layer": "H", "mode": "interp", "variant": "ot", "runs": 100000, "workers": 3, "budget_s": 2600,
          "params": {"families": ["WassersteinCase"], "cancel": True}},
         {"name": "H-jit-ot", "layer": "H", "mode": "jit", "variant": "ot", "runs": 80000, "workers": 2, "budget_s": 2600,
@@ -217,10 +221,10 @@ REQUIRED_PROBES = {
     "C13": {
         "quick": ["blockwise-fit", "memo-compared", "same-model-checked", "transform-after-faulted-transform", "cancel@line",
                   "reader:raise", "reader:short", "io:ENOSPC@mkdtemp", "io:ENOSPC@memmap-create", "io:EIO@memmap-flush",
-                  "io:EIO@memmap-open", "data:nan"],
+                  "io:EIO@memmap-open", "data:nan", "hashseed-pairs-compared"],
         "thorough": ["blockwise-fit", "memo-compared", "same-model-checked", "transform-after-faulted-transform", "cancel@line",
                      "reader:raise", "reader:short", "io:ENOSPC@mkdtemp", "io:ENOSPC@memmap-create", "io:EIO@memmap-flush",
-                     "io:EIO@memmap-open", "data:nan", "io:EACCES@rmtree"],
+                     "io:EIO@memmap-open", "data:nan", "io:EACCES@rmtree", "hashseed-pairs-compared"],
     },
     "C04": {
         "quick": ["growth", "depth>=2", "path.merge_all_sum_duplicates", "volume>capacity", "path.coo_increase_mem",
